@@ -374,7 +374,10 @@ Definition read_woff2_hmtx (glyf : list glyph) (num_glyphs num_h_metrics : Z) (s
   else
     '(lsbs, s) <-
        (if Z.land flags 2 =? 0 then rd_array16 rd_i16 (num_glyphs - num_h_metrics) s
-        else xs <- glyph_xmins (drop num_h_metrics glyf) ;; Ok (xs, s)) ;;
+        (* as the code stands: xMin of ALL glyphs from glyph 0 (numGlyphs entries), not of the glyphs
+           from numberOfHMetrics on.  Known finding C11-hmtx-lsb-absent: the one-line repair
+           `.skip(num_h_metrics)` contradicts the pinned test test_woff2_transformed_hmtx_table. *)
+        else xs <- glyph_xmins glyf ;; Ok (xs, s)) ;;
     Ok (map (fun p => (snd p, fst p)) (zip lsb advance), lsbs).
 
 (* HmtxTable::read_dep (plain) *)
@@ -399,11 +402,15 @@ Definition wr_bbox (b : bbox) : list Z :=
 Definition write_hmtx (h : list (Z * Z) * list Z) : list Z :=
   flat_map (fun p => wr_u16 (fst p) ++ wr_i16 (snd p)) (fst h) ++ flat_map wr_i16 (snd h).
 
-(* the delta loops of SimpleGlyph::write: `x - prev_x` is i16 subtraction in default mode *)
+(* the delta loops of SimpleGlyph::write: i16::try_from(i32::from(x) - i32::from(prev_x))?, a
+   WriteError (canonicalised as OtherErr) when two consecutive points are more than an i16 apart;
+   the arithmetic mode plays no role any more *)
 Fixpoint write_deltas (m : mode) (vs : list Z) (prev : Z) : outcome (list Z) :=
   match vs with
   | [] => Ok []
-  | v :: r => d <- m_sub m TI16 v prev ;; rest <- write_deltas m r v ;; Ok (wr_i16 d ++ rest)
+  | v :: r =>
+      d <- (if (-32768 <=? v - prev) && (v - prev <=? 32767) then Ok (v - prev) else Err OtherErr) ;;
+      rest <- write_deltas m r v ;; Ok (wr_i16 d ++ rest)
   end.
 
 Definition comp_arg_bytes (flags v : Z) : list Z :=
